@@ -35,6 +35,11 @@ def failing_edits(live, rng):
         if jobs:
             j = rng.choice(jobs)
             out.append(("negative-storage", {"op": "setq", "kind": "jobs", "name": j, "param": "data_stored", "value": {"m": -1e9, "u": "TB"}}))
+            if any(spec["jobs"][x]["data_stored"]["m"] < 0 for x in jobs) and spec["storages"][st]["base_storage_need"]["m"] > 0:
+                # a storage kept non-negative only by its base need: lowering the base need makes the cumulative need negative
+                # (the one input that feeds full_cumulative_storage_need without feeding storage_delta)
+                out.append(("negative-storage-base", {"op": "setq", "kind": "storages", "name": st, "param": "base_storage_need",
+                                                      "value": {"m": 0.0, "u": "TB"}}))
     return out
 
 
@@ -46,6 +51,12 @@ def current_value_op(live, op):
 
 def compare(live, label, spec0, ops, out, sig):
     why, _ = eo.compare_with_fresh(live)
+    if why and str(why).startswith("fresh build raises neg-storage") and not sig.startswith("C15:accepted-edit-stale") \
+            and not sig.startswith("C15:failing-edit-accepted"):
+        # the same inputs built twice: once accepted, once refused for a cumulative need of −1e-2x TB — float cancellation
+        # in the cumulative storage need (D4, C04's finding), not a question of recovery
+        out["inconclusive"] = out.get("inconclusive", 0) + 1
+        return True
     if why:
         out["violations"].append({"signature": sig, "detail": f"{label}: {why}", "replay": {"spec": spec0, "ops": list(ops)}})
         return False
@@ -57,7 +68,7 @@ def shard(args):
     rng = random.Random(seed)
     out = {"cases": 0, "failures": {}, "violations": [], "samples": [], "hashes": [], "crash_points": 0}
     for i in range(n):
-        spec = specgen.gen_safe_spec(rng, realsys.unit_info, allow_delete=False, allow_dumps=False)
+        spec = specgen.gen_safe_spec(rng, realsys.unit_info, allow_delete=(i % 2 == 0), allow_dumps=False)
         if history.has_shared_job(spec):
             spec = specgen.unshare_jobs(spec)      # own journey, steps and jobs per usage pattern
         if history.has_shared_job(spec):
@@ -75,6 +86,9 @@ def shard(args):
         ok = True
         for r in range(rounds):
             label, fop = rng.choice(cands)
+            based = [c for c in cands if c[0] == "negative-storage-base"]
+            if based and rng.random() < 0.6:
+                label, fop = rng.choice(based)
             undo = current_value_op(live, fop)
             if undo["value"] is None and fop["param"] == "fixed_nb_of_instances":
                 undo = {"op": "setq", "kind": fop["kind"], "name": fop["name"], "param": "fixed_nb_of_instances", "value": None}
@@ -138,7 +152,7 @@ def shard(args):
                     ops.append(op)
                     if st4 == "ok":
                         ok = compare(live, f"later edit {eo.op_label(op)} after {label} + revert", spec, ops, out, f"C15:later-edit-stale:{label}")
-                    elif err4 not in ("capacity", "fixed-instances", "neg-storage", "not-allowed"):
+                    elif err4 not in ("capacity", "fixed-instances", "neg-storage", "not-allowed", "shape"):   # shape: D15 (C04)
                         # a valid edit elsewhere raises after the recovery: the model is not back to a sound state
                         out["violations"].append({"signature": f"C15:later-edit-raises:{label}:{err4}",
                                                   "detail": f"after {label} + revert (and a further edit of the same input), the valid edit {eo.op_label(op)} raises {err4}",
